@@ -83,12 +83,15 @@ def main():
     subprocess.run(["git", "-C", "/repo", "apply", os.path.join(os.path.abspath(src), "patch.diff")], check=True)
     try:
         man = json.load(open("/verif/MANIFEST.json"))
-        for chk in man["checks"]:
-            pid = chk["property_id"]
+        from concurrent.futures import ThreadPoolExecutor
+        def one(chk):
             r = subprocess.run(chk["quick_cmd"], cwd="/verif", env=ENV, shell=True, capture_output=True, text=True)
             lines = [l for l in r.stdout.splitlines() if ("violated" in l or "undecided" in l) and not l.startswith("    ")]
-            if r.returncode != 0:
-                fired[pid] = {"exit": r.returncode, "diagnostics": lines[:6]}
+            return chk["property_id"], r.returncode, lines
+        with ThreadPoolExecutor(max_workers=10) as ex:
+            for pid, rc, lines in ex.map(one, man["checks"]):
+                if rc != 0:
+                    fired[pid] = {"exit": rc, "diagnostics": lines[:6]}
     finally:
         subprocess.run(["git", "-C", "/repo", "checkout", "--", "."], check=True)
         subprocess.run(["git", "-C", "/repo", "clean", "-fdq"], check=True)
